@@ -120,12 +120,31 @@ void fiber_manager_yield(fiber_manager_t* manager) {
   else if (yield_hook == HOOK_MULTI) hook_multi(manager);
 }
 
+/* the timerfd as far as a reader can see it: `g_pending` expirations fired but were not read yet.  The
+ * unchanged fiber_sleep never reads the timerfd; a repaired one may drain it before computing wake_time
+ * (then nothing is left to be credited to the new sleeper).  Installed as fibershim_read. */
+static uint64_t g_pending;   /* expirations fired before the call but not yet added to ttc */
+static uint64_t g_pending0;  /* its value at the call */
+static ssize_t stub_timerfd_read(int fd, void* buf, size_t n) {
+  if (fd == timer_fd && n == sizeof(uint64_t) && g_pending > 0) {
+    *(uint64_t*)buf = g_pending;
+    g_pending = 0;
+    return (ssize_t)sizeof(uint64_t);
+  }
+  errno = EAGAIN;
+  return -1;
+}
+
 static void env_init(uint64_t ttc0) {
   /* representation invariant: the event system is initialised (event_fd >= 0), nobody sleeps yet,
    * the sleep lock is free (ticket == users, arbitrary value incl. wrap), ttc counts 5 ms ticks
    * since init and is < 2^62 (2^62 ticks = 7e8 years) */
   __CPROVER_assume(ttc0 < ((uint64_t)1 << 62));
   event_fd = 3;
+  timer_fd = 4;
+  fibershim_read = stub_timerfd_read;
+  g_pending = 0;
+  g_pending0 = 0;
   timer_trigger_count = ttc0;
   sleepers = NULL;
   uint32_t t = nondet_u32();
@@ -146,7 +165,6 @@ static void env_init(uint64_t ttc0) {
 /* =================================================================== 1. arithmetic of one sleeper */
 static uint64_t g_ttc0;      /* ttc at the moment of the call */
 static u128 g_requested_ns;  /* requested duration in ns (ghost, exact) */
-static uint64_t g_pending;   /* expirations fired before the call but not yet added to ttc */
 static int g_hook_ran;
 enum { CLAIM_FITS = 0, CLAIM_ALL_DURATIONS = 1, CLAIM_PENDING = 2 };
 static int g_claim;
@@ -159,7 +177,10 @@ static void hook_single_sleeper(fiber_manager_t* m) {
   __CPROVER_assert(sleepers->waiter == (void*)&fibers[0], "registered node names the calling fiber");
   __CPROVER_assert(fibers[0].state == FIBER_STATE_WAITING, "sleeping fiber is in state WAITING when it yields");
   __CPROVER_assert(lock_is_free(), "sleep_spinlock is released by the deferred unlock of the yield");
-  __CPROVER_assert(timer_trigger_count == g_ttc0, "fiber_sleep does not modify timer_trigger_count");
+  /* (a repaired fiber_sleep may drain the timerfd itself: what it read must be in ttc, nothing else) */
+  __CPROVER_assert(timer_trigger_count + g_pending == g_ttc0 + g_pending0,
+                   "fiber_sleep neither loses nor invents timer expirations");
+  const uint64_t ttc_at_suspend = timer_trigger_count;
   const uint64_t wake_time = sleepers->wake_time;
 
   /* the timer / poller: n expirations after the call, accounted in up to two batches together with
@@ -196,11 +217,11 @@ static void hook_single_sleeper(fiber_manager_t* m) {
                    "only the registered fiber, in state READY, is handed to the scheduler");
   __CPROVER_assert(sched_lock_free == 0, "sleepers are scheduled while sleep_spinlock is held");
   /* resumed for sure once ttc exceeds wake_time (wake rule wake_time < ttc) */
-  __CPROVER_assert(woken == (wake_time < g_ttc0 + total ? 1u : 0u),
+  __CPROVER_assert(woken == (wake_time < ttc_at_suspend + total ? 1u : 0u),
                    "sleeper is resumed exactly when timer_trigger_count exceeds its wake_time");
   if (woken) __CPROVER_assert(sleepers == NULL, "woken sleeper is removed from the tree");
   __CPROVER_assert(lock_is_free(), "sleep_spinlock is released at the end of fiber_event_wake_sleepers");
-  __CPROVER_assert(timer_trigger_count == g_ttc0 + total, "timer_trigger_count advances by the expirations read");
+  __CPROVER_assert(timer_trigger_count == ttc_at_suspend + total, "timer_trigger_count advances by the expirations read");
 }
 
 /* the 32-bit expression of fiber_sleep does not wrap: seconds*1000 + useconds/1000 + 1 <= UINT32_MAX */
@@ -213,6 +234,7 @@ static void run_fiber_sleep(uint32_t seconds, uint32_t useconds, uint64_t pendin
   g_ttc0 = nondet_u64();
   env_init(g_ttc0);
   g_pending = pending;
+  g_pending0 = pending;
   g_requested_ns = ((u128)seconds * 1000000u + (u128)useconds) * 1000u;
   g_hook_ran = 0;
   yield_hook = HOOK_SINGLE;
